@@ -13,6 +13,7 @@ import Biogo.Proofs.ContAln
 import Biogo.Proofs.ContAppend
 import Biogo.Proofs.ContSepWorld
 import Biogo.Proofs.ContModelObs
+import Biogo.Proofs.ContModelObs07
 import Biogo.Generated.Alphabets
 
 namespace Biogo.Properties.C07
@@ -509,5 +510,40 @@ theorem clone_equal_on_observations (cx : Ctx) (w : World) (hw : WorldWF w) (k :
     (hk : w.objs[k]? = some o) (hclonable : ∀ m, o ≠ .set m) :
     ((apply cx w (.clone k)).1.view cx)[w.objs.length]? = (w.view cx)[k]? :=
   model_clone_equal cx w hw k o hk hclonable
+
+/-- **delete_exact, observation level** (column-stored alignment in a well-formed state,
+    `ObjWF` = what `WorldWF` gives for the object): the rows observed after `Delete(i)` — letters
+    over the span, names, strands, offsets — are the rows observed before without row `i`, and
+    `Rows()` drops by one -/
+theorem delete_on_observations_aln (cx : Ctx) (h : Cells) (a : Aln) (hwf : ObjWF h (.aln a)) (i : Nat)
+    (hi : i < a.rows) :
+    Laws.DeleteSpec (viewObj cx h (.aln a)) (viewObj cx (a.delete h i).1 (.aln (a.delete h i).2)) i := by
+  obtain ⟨_, n, hc, _⟩ := hwf
+  exact model_delete_aln cx h a n hc i hi
+
+/-- **delete_exact, observation level** (multi) -/
+theorem delete_on_observations_multi (cx : Ctx) (h : Cells) (m : Multi) (i : Nat) (hi : i < m.nrows) :
+    Laws.DeleteSpec (viewObj cx h (.multi m)) (viewObj cx h (.multi (m.delete i))) i :=
+  model_delete_multi cx h m i hi
+
+/-- **subseq_truncate_exact (Truncate), observation level**: over a range every row of a
+    well-formed multi covers, `Truncate` reports no error and every row is observed to span
+    exactly `[st,en)` with exactly the cells it showed there -/
+theorem truncate_on_observations (cx : Ctx) (h : Cells) (m : Multi) (hwf : ObjWF h (.multi m)) (st en : Int)
+    (hse : st ≤ en) (hcov : ∀ r ∈ m.rows, r.start ≤ st ∧ en ≤ r.«end») :
+    (m.truncate st en).2 = true ∧
+    Laws.RangeSpec (viewObj cx h (.multi m)) (viewObj cx h (.multi (m.truncate st en).1)) st en :=
+  model_truncate_multi cx h m hwf st en hse hcov
+
+/-- **append_exact (AppendColumns), observation level** (column-stored alignment in a
+    well-formed state): when `AppendColumns` accepts its arguments every row is observed as
+    before followed by exactly the supplied letters (default quality for an alignment without
+    qualities), same start, end moved by the number of columns, same name / strand / kind -/
+theorem append_columns_on_observations (cx : Ctx) (h : Cells) (a : Aln) (hwf : ObjWF h (.aln a))
+    (rows : Nat) (hr : a.rows? = some rows) (colsIn : List (List QL)) (h' : Cells) (a' : Aln)
+    (happ : a.appendColumns cx h rows colsIn = some (h', a')) :
+    Laws.AppendColsSpec (viewObj cx h (.aln a)) (viewObj cx h' (.aln a')) colsIn := by
+  obtain ⟨_, n, hc, _⟩ := hwf
+  exact model_appendCols_aln cx h a n hc rows hr colsIn h' a' happ
 
 end Biogo.Properties.C07
